@@ -10,7 +10,8 @@ PROP = "C19"
 CHECK_MODULE = "Check.C19"
 COQ_IMPORTS = "Model.AnnotationOps Check.AnnCommon"
 SHARD = 60
-RULE = ("string_generator: first N <= 800 values with skip collections given as list or set (members among the "
+RULE = ("[also: pairwise over None / falsy / repeated items and empty inputs; skip collections shared by several generators] " +
+        "string_generator: first N <= 800 values with skip collections given as list or set (members among the "
         "first 800 words, incl. 'A', 'Z', 'AA', 'ZZ'); int_generator; pairwise; new_track on annotations whose segment "
         "already holds generated names ('0','1',...), the candidate, or prefixed names; up to seven tracks on one segment from pools of names that parse to the same integers ('0' / '00', '1' / '01', 'T0' / 'T00'); prefixes with format characters ('%', '%s', 'T%d', '{}') in 15%; to_annotation with each "
         "generator kind, incl. caller-owned iterators that run out of names before the segments do (refused, never an incomplete annotation); random_subsegment refusing a fixed duration that exceeds the segment by less than a microsecond; random_subsegment with np.random.random replaced by a stub returning k/1024 (so the model "
